@@ -334,6 +334,155 @@ theorem readToken_eof_prefix (w s : Bytes) (h : readToken (w ++ s) = .error .eof
       rw [readToken_stable.rgb w s hw] at h
       simp at h
 
+/-! ### readers only look at the bytes they consume -/
+
+/-- `p` returns a suffix of its input and its verdict depends only on the consumed bytes -/
+def Local {α : Type} (p : P α) : Prop :=
+  ∀ d x r, p d = .ok (x, r) → ∃ pre, d = pre ++ r ∧ ∀ s, p (pre ++ s) = .ok (x, s)
+
+theorem Local.bind {α β : Type} {p : P α} {k : α → P β} (hp : Local p) (hk : ∀ x, Local (k x)) :
+    Local (P.bind p k) := by
+  intro d x r h
+  unfold P.bind at h
+  split at h
+  · simp at h
+  · rename_i y d1 hy
+    obtain ⟨pre1, h1, h2⟩ := hp d y d1 hy
+    obtain ⟨pre2, h3, h4⟩ := hk y d1 x r h
+    refine ⟨pre1 ++ pre2, by rw [h1, h3, List.append_assoc], fun s => ?_⟩
+    simp only [P.bind, List.append_assoc, h2 (pre2 ++ s), h4 s]
+
+theorem Local.map {α β : Type} {p : P α} (f : α → β) (hp : Local p) : Local (P.map f p) := by
+  intro d x r h
+  unfold P.map at h
+  split at h
+  · simp at h
+  · rename_i y d1 hy
+    simp only [Except.ok.injEq, Prod.mk.injEq] at h
+    obtain ⟨pre, h1, h2⟩ := hp d y d1 hy
+    refine ⟨pre, by rw [h1, h.2], fun s => ?_⟩
+    simp only [P.map, h2 s, h.1]
+
+theorem Local.pure {α : Type} (x : α) : Local (P.pure x) := by
+  intro d y r h
+  simp only [P.pure, Except.ok.injEq, Prod.mk.injEq] at h
+  exact ⟨[], by simp [h.2], fun s => by simp [P.pure, h.1]⟩
+
+theorem Local.fail {α : Type} (e : LexErr) : Local (P.fail e : P α) := by
+  intro d y r h
+  simp [P.fail] at h
+
+theorem Local.ite {α : Type} {c : Prop} [Decidable c] {p q : P α} (hp : Local p) (hq : Local q) :
+    Local (if c then p else q) := by
+  split <;> assumption
+
+theorem local_split {α : Type} (n : Nat) (f : Bytes → α) :
+    Local (fun d => match getSplit n d with | none => .error .eof | some (h, r) => .ok (f h, r) : P α) := by
+  intro d x r h
+  dsimp only at h
+  split at h
+  · simp at h
+  · rename_i hh rr hs
+    simp only [Except.ok.injEq, Prod.mk.injEq] at h
+    obtain ⟨h1, h2⟩ := getSplit_some hs
+    refine ⟨hh, by rw [h1, h.2], fun s => ?_⟩
+    simp only [getSplit_of_append hh s h2, h.1]
+
+theorem readId_local : Local readId := local_split 2 leNat
+theorem readU32_local : Local readU32 := local_split 4 leNat
+theorem readU64_local : Local readU64 := local_split 8 leNat
+theorem readI32_local : Local readI32 := local_split 4 (fun h => toSigned 32 (leNat h))
+theorem readI64_local : Local readI64 := local_split 8 (fun h => toSigned 64 (leNat h))
+theorem readF32_local : Local readF32 := local_split 4 id
+theorem readF64_local : Local readF64 := local_split 8 id
+
+theorem readBool_local : Local readBool := by
+  intro d x r h
+  cases d with
+  | nil => simp [readBool] at h
+  | cons a t =>
+    simp only [readBool, Except.ok.injEq, Prod.mk.injEq] at h
+    exact ⟨[a], by simp [h.2], fun s => by simp [readBool, h.1]⟩
+
+theorem readString_local : Local readString := by
+  intro d x r h
+  unfold readString at h
+  split at h
+  · simp at h
+  · rename_i hh rr hs
+    simp only at h
+    split at h
+    · rename_i hle
+      simp only [Except.ok.injEq, Prod.mk.injEq] at h
+      obtain ⟨h1, h2⟩ := getSplit_some hs
+      refine ⟨hh ++ rr.take (leNat hh), ?_, fun s => ?_⟩
+      · rw [h1, ← h.2, List.append_assoc, List.take_append_drop]
+      · have hl : (rr.take (leNat hh)).length = leNat hh := by rw [List.length_take]; omega
+        simp only [readString, List.append_assoc, getSplit_of_append hh _ h2]
+        have : leNat hh ≤ (List.take (leNat hh) rr ++ s).length := by simp; omega
+        simp only [this, if_true, Except.ok.injEq, Prod.mk.injEq]
+        constructor
+        · rw [List.take_left' hl]; exact h.1
+        · rw [List.drop_left' hl]
+    · simp at h
+
+theorem readRgb_local : Local readRgb := by
+  unfold readRgb
+  refine readId_local.bind fun _ => readId_local.bind fun _ => readU32_local.bind fun _ =>
+    readId_local.bind fun _ => readU32_local.bind fun _ => readId_local.bind fun _ =>
+    readU32_local.bind fun _ => readId_local.bind fun _ => ?_
+  refine Local.ite (Local.pure _) (Local.ite ?_ (Local.fail _))
+  exact readU32_local.bind fun _ => readId_local.bind fun _ => Local.ite (Local.pure _) (Local.fail _)
+
+theorem readToken_local : Local readToken := by
+  unfold readToken
+  refine readId_local.bind fun _ => ?_
+  repeat' (first | apply Local.ite | apply Local.pure | apply Local.map)
+  all_goals first
+    | exact readU32_local | exact readU64_local | exact readI32_local | exact readI64_local
+    | exact readBool_local | exact readString_local | exact readF32_local | exact readF64_local
+    | exact readRgb_local
+
+/-! ### the `Lexer` object against the bare byte-list run -/
+
+theorem Lexer.runLoop_eq (fuel : Nat) (l : Lexer) :
+    Lexer.runLoop fuel l = ((lexLoop fuel l.data).1, (lexLoop fuel l.data).2.1,
+      l.originalLength - (lexLoop fuel l.data).2.2.length) := by
+  induction fuel generalizing l with
+  | zero => simp [Lexer.runLoop, lexLoop, Lexer.position]
+  | succ fuel ih =>
+    unfold Lexer.runLoop lexLoop
+    simp only [Lexer.nextToken, Lexer.liftNext]
+    cases hrt : BinLexer.readToken l.data with
+    | ok v =>
+      obtain ⟨t, r⟩ := v
+      simp only
+      rw [ih]
+    | error e =>
+      cases e with
+      | eof =>
+        simp only [Lexer.remainder]
+        by_cases hd : l.data.isEmpty = true
+        · simp [hd, Lexer.position]
+        · simp [hd, Lexer.position, Lexer.errPosition]
+      | invalidRgb => simp [Lexer.position, Lexer.errPosition]
+
+/-- `next_token` until `None` / error is `lexAll`, and the final `position()` is the number of
+bytes `lexAll` consumed -/
+theorem Lexer.run_eq (d : Bytes) :
+    Lexer.run d = ((lexAll d).1, (lexAll d).2.1, d.length - (lexAll d).2.2.length) := by
+  unfold Lexer.run lexAll
+  rw [Lexer.runLoop_eq]
+  rfl
+
+/-- `peek_token` is `read_token` without the state change -/
+theorem Lexer.peekToken_eq (l : Lexer) (t : Token) :
+    l.peekToken = some t ↔ ∃ r, BinLexer.readToken l.data = .ok (t, r) := by
+  unfold Lexer.peekToken
+  cases h : BinLexer.readToken l.data with
+  | ok v => obtain ⟨t', r⟩ := v; simp
+  | error e => simp
+
 /-! ### codec: reading what `Token::write` wrote -/
 
 theorem readId_le (x : Nat) (rest : Bytes) (hx : x < 65536) :
